@@ -5,6 +5,7 @@ pub mod c02;
 pub mod c04;
 pub mod c05;
 pub mod c06;
+pub mod c07;
 pub mod c13;
 pub mod c16;
 pub mod c17;
@@ -28,6 +29,7 @@ pub fn run(ctx: &Ctx, out: &mut Out) -> bool {
         "C04" => c04::run(ctx, out),
         "C05" => c05::run(ctx, out),
         "C06" => c06::run(ctx, out),
+        "C07" => c07::run(ctx, out),
         "C13" => c13::run(ctx, out),
         "C17" => c17::run(ctx, out),
         "C18" => c18::run(ctx, out),
